@@ -88,18 +88,18 @@ prop(
 
 prop(
     "C12",
-    ["DivanModel.Props.C12"],
+    ["DivanModel.Props.C12", "DivanModel.Props.C12Uniq"],
     [lab("reg", 1500, 40000), lab("mac", 480, 9600, timeout=1200)],
-    level_text="Theorems on the tree-building model (EntryList order, from_benches/insert_entry, insert_group): every registered plain benchmark and generic instance becomes exactly one leaf below parents named by its path components (buildTree_leaves, a multiset equality), bench_group entries add no leaf, and the placed-leaf multiset is invariant under any permutation of the registration order (order_independent). Tied to the code by the registry lab: entries are pushed into BENCH_ENTRIES/GROUP_ENTRIES in random constructor order exactly as the macro expansion does, the real front end runs, and the executed/listed cases are compared with the model and with the expected case list computed from the abstract program (one per types x consts combination, one per argument, nothing for empty lists). The macro lab renders random programs as Rust source with the real #[divan::bench] / #[divan::bench_group] attributes (raw identifiers, custom names, every option in each of its written forms, types/consts in both parameter orders, literal and external const lists, args as array/vec/reference/iterator of &str, String, i32, f64, bool and a Debug-only type, functions with and without a Bencher), compiles them, and has the child dump what the macros registered - module path, raw and display name, file/line, the BenchOptions, the shape of generic_benches, constructor order - before the real front end runs; registration is compared with the items as written ([C12] spec) and feeds the same front-end model.",
+    level_text="Theorems on the tree-building model (EntryList order, from_benches/insert_entry, insert_group): every registered plain benchmark and generic instance becomes exactly one leaf below parents named by its path components (buildTree_leaves, a multiset equality), bench_group entries add no leaf, and the placed-leaf multiset is invariant under any permutation of the registration order (order_independent); at every level of the built tree no two parent nodes carry the same raw name, whatever was registered in whatever order (Props/C12Uniq.buildTree_uniq, uniq_same_node): a module is one node, so a bench_group reaches every benchmark below its module. Tied to the code by the registry lab: entries are pushed into BENCH_ENTRIES/GROUP_ENTRIES in random constructor order exactly as the macro expansion does, the real front end runs, and the executed/listed cases are compared with the model and with the expected case list computed from the abstract program (one per types x consts combination, one per argument, nothing for empty lists). The macro lab renders random programs as Rust source with the real #[divan::bench] / #[divan::bench_group] attributes (raw identifiers, custom names, every option in each of its written forms, types/consts in both parameter orders, literal and external const lists, args as array/vec/reference/iterator of &str, String, i32, f64, bool and a Debug-only type, functions with and without a Bencher), compiles them, and has the child dump what the macros registered - module path, raw and display name, file/line, the BenchOptions, the shape of generic_benches, constructor order - before the real front end runs; registration is compared with the items as written ([C12] spec) and feeds the same front-end model.",
     level_note="Trusted: Lean kernel; registry lab; macro lab (the renderer from items to source is the statement of what 'as written' means; rustc, cargo and the linker's .init_array handling are used, not modelled). Name clash F7 is a recorded finding (not generated by the macro lab).",
     trusted=REG_TRUST,
 )
 
 prop(
     "C17",
-    ["DivanModel.Props.C17"],
+    ["DivanModel.Props.C17", "DivanModel.Props.C17Once"],
     [lab("reg", 1500, 40000), lab("mac", 480, 9600, timeout=1200)],
-    level_text="Theorems: slice_ptr_index(base + i*size) = i; with parallel names/args slices the case under a label gets the argument rendering to it for any surviving subset/permutation of name pointers; in the run-walk model the invocations of a benchmark with args are exactly names[i] for the surviving indices in printed order, once per thread count (label_is_value), and retain/sort only filter/permute the index list. Tied to the code by the registry lab: each benchmark body logs the value it received; the label printed on the output line of every executed case must equal it, under 3 sorts x 2 directions x filters keeping strict subsets. The macro lab does the same with the real macros: bodies log the instantiation (TypeId / const value looked up in the written lists) and the value received (ToString, or Debug for a type without ToString), the args expression counts its evaluations (once per benchmark, shared by all generic instantiations), and a [C17] spec requires the rows of a generic benchmark with args to be run by the instantiation and argument they name.",
+    level_text="Theorems: slice_ptr_index(base + i*size) = i; with parallel names/args slices the case under a label gets the argument rendering to it for any surviving subset/permutation of name pointers; in the run-walk model the invocations of a benchmark with args are exactly names[i] for the surviving indices in printed order, once per thread count (label_is_value), and retain/sort only filter/permute the index list; a write-once cell shared by all instantiations of a function evaluates even an impure args expression exactly once and hands every instantiation the same list (Props/C17Once.evaluated_once_and_shared). Tied to the code by the registry lab: each benchmark body logs the value it received; the label printed on the output line of every executed case must equal it, under 3 sorts x 2 directions x filters keeping strict subsets. The macro lab does the same with the real macros: bodies log the instantiation (TypeId / const value looked up in the written lists) and the value received (ToString, or Debug for a type without ToString), the args expression counts its evaluations (once per benchmark, shared by all generic instantiations), and a [C17] spec requires the rows of a generic benchmark with args to be run by the instantiation and argument they name.",
     level_note="Trusted: Lean kernel; registry lab; macro lab. The TypeId check and the unchecked cast are exercised, not modelled.",
     trusted=REG_TRUST,
 )
